@@ -144,9 +144,72 @@ pub fn check_query(q: &Query, rep: &mut Report) {
             }
         }
     }
+    // the answer does not depend on the order in which fields and methods are listed: the same query on
+    // types whose field / method vectors are reversed and rotated (hand-built types need not be sorted)
+    for how in [1u8, 2] {
+        let (ps, pt) = (permute(&rs, how), permute(&rt, how));
+        let penv = permute_env(&renv, how);
+        if ps == rs && pt == rt && penv.0 == renv.0 {
+            continue;
+        }
+        for (a, b, e, side) in [(&ps, &rt, &renv, "left"), (&rs, &pt, &renv, "right"), (&ps, &pt, &penv, "both+definitions")] {
+            rep.transitions += 2;
+            rep.traces_validated += 2;
+            match real_sub(OptReport::Silence, e, a, b, &mut Gamma::new()) {
+                Err(p) => bad("subtype-order-panic", format!("subtype panics on reordered ({side}, permutation {how}) types: {p}"), rep),
+                Ok(got) if got != want => bad("subtype-order", format!("subtype answers {got} when the fields/methods of the {side} side are listed in another order (permutation {how}); greatest fixed point says {want}"), rep),
+                _ => {}
+            }
+            match catch(|| subtype::subtype_check_all(&mut Gamma::new(), e, a, b).is_empty()) {
+                Err(p) => bad("check_all-order-panic", p, rep),
+                Ok(got) if got != want => bad("check_all-order", format!("subtype_check_all is empty={got} on reordered ({side}, permutation {how}) types; gfp says related={want}"), rep),
+                _ => {}
+            }
+        }
+    }
     if rep.samples.len() < 3 {
         rep.sample(json!({"env": env_text(&q.env), "query": format!("{} <: {}", q.s, q.t), "gfp": want, "pairs": st.pairs}));
     }
+}
+
+/// the same type with every field / method vector listed in another order (1: reversed, 2: rotated by one)
+fn permute(t: &Type, how: u8) -> Type {
+    use candid::types::{Field, Function, TypeInner};
+    fn order<T: Clone>(v: Vec<T>, how: u8) -> Vec<T> {
+        let mut v = v;
+        if v.len() > 1 {
+            if how == 1 {
+                v.reverse();
+            } else {
+                v.rotate_left(1);
+            }
+        }
+        v
+    }
+    let fields = |fs: &Vec<Field>| -> Vec<Field> { order(fs.iter().map(|f| Field { id: f.id.clone(), ty: permute(&f.ty, how) }).collect(), how) };
+    match t.as_ref() {
+        TypeInner::Opt(x) => TypeInner::Opt(permute(x, how)).into(),
+        TypeInner::Vec(x) => TypeInner::Vec(permute(x, how)).into(),
+        TypeInner::Record(fs) => TypeInner::Record(fields(fs)).into(),
+        TypeInner::Variant(fs) => TypeInner::Variant(fields(fs)).into(),
+        TypeInner::Func(f) => TypeInner::Func(Function {
+            modes: f.modes.clone(),
+            args: f.args.iter().map(|a| permute(a, how)).collect(),
+            rets: f.rets.iter().map(|a| permute(a, how)).collect(),
+        })
+        .into(),
+        TypeInner::Service(ms) => TypeInner::Service(order(ms.iter().map(|(n, f)| (n.clone(), permute(f, how))).collect(), how)).into(),
+        TypeInner::Class(args, s) => TypeInner::Class(args.iter().map(|a| permute(a, how)).collect(), permute(s, how)).into(),
+        _ => t.clone(),
+    }
+}
+
+fn permute_env(e: &TypeEnv, how: u8) -> TypeEnv {
+    let mut out = TypeEnv::new();
+    for (k, t) in &e.0 {
+        out.0.insert(k.clone(), permute(t, how));
+    }
+    out
 }
 
 fn v(s: &str) -> Ty {
@@ -274,6 +337,34 @@ pub fn build_queries(tier: Tier) -> (Vec<Query>, Vec<String>) {
     }
     notes.push(format!("S2: {} left environments (step {}), {} environment pairs, {} queries", envs.len(), step, npairs, qs.len() - n2));
     let n3 = qs.len();
+    // S4: services over five method names (each with its own function type): every pair of a 5-, 4- or 3-method
+    // interface against every sub-interface and against interfaces with one method's type changed
+    {
+        let n0 = qs.len();
+        let names = ["a", "b", "c", "d", "e"];
+        let fty = |i: usize, alt: bool| -> Ty {
+            let arg = [p(P::Nat), p(P::Text), p(P::Int), p(P::Null), p(P::Reserved)][i].clone();
+            if alt {
+                Ty::func(vec![p(P::Bool)], vec![arg], vec![])
+            } else {
+                Ty::func(vec![arg.clone()], vec![Ty::opt(arg)], if i % 2 == 0 { vec![] } else { vec![Mode::Query] })
+            }
+        };
+        let svc = |mask: u32, alt: u32| -> Ty { Ty::service((0..5).filter(|i| mask >> i & 1 == 1).map(|i| (names[i].to_string(), fty(i, alt >> i & 1 == 1))).collect()) };
+        for big in [0b11111u32, 0b11110, 0b01111, 0b10101, 0b11100] {
+            for small in 0..32u32 {
+                qs.push(Query { env: empty.clone(), s: svc(big, 0), t: svc(small, 0), family: "S4:service-method-sets" });
+                if small & big == small && small != 0 {
+                    // one method of the expected interface has another type
+                    let one = 1 << small.trailing_zeros();
+                    qs.push(Query { env: empty.clone(), s: svc(big, 0), t: svc(small, one), family: "S4:service-method-sets" });
+                    let top = 1 << (31 - small.leading_zeros());
+                    qs.push(Query { env: empty.clone(), s: svc(big, 0), t: svc(small, top), family: "S4:service-method-sets" });
+                }
+            }
+        }
+        notes.push(format!("S4: {} service queries", qs.len() - n0));
+    }
     // S3: the record-pair family of the design prototype: A, B records with <=2 fields over
     // {nat, text, A, B, opt ., vec .}; right side has exactly one leaf flipped nat<->text
     let ft = |a: &str, b: &str| -> Vec<Ty> {
@@ -401,9 +492,27 @@ fn check_text_level(env: &Env, rep: &mut Report, orbit: bool) {
     } else {
         vec![(vec![("A", "A"), ("B", "B")], vec![("A2", "A"), ("B2", "B")], false, false)]
     };
+    // wrapped: the method types go through a definition that exists on ONE side only (its name does not
+    // collide) and refers to the colliding names; the other side spells the same type inline
+    let mut wenv = env.clone();
+    wenv.0.insert("Pold".into(), Ty::vec(v("A2")));
+    wenv.0.insert("Qnew".into(), Ty::record(vec![(0, v("B"))]));
+    let new_w = Ty::service(vec![("m".into(), Ty::func(vec![Ty::vec(v("A"))], vec![v("Qnew")], vec![Mode::Query]))]);
+    let old_w = Ty::service(vec![("m".into(), Ty::func(vec![v("Pold")], vec![Ty::record(vec![(0, v("B2"))])], vec![Mode::Query]))]);
+    let want_w = sub::subtype(&wenv, &new_w, &old_w);
+    let weq_w = sub::equal(&wenv, &new_w, &old_w);
+    let mut scenarios: Vec<(&Env, &Ty, &Ty, bool, bool, Vec<(&str, &str)>, Vec<(&str, &str)>, bool, bool)> = vec![];
     for (nn, on, r1, r2) in variants {
-        let new_src = did_of(env, &nn, r1, &new_actor);
-        let old_src = did_of(env, &on, r2, &old_actor);
+        scenarios.push((env, &new_actor, &old_actor, want, weq, nn, on, r1, r2));
+    }
+    scenarios.push((&wenv, &new_w, &old_w, want_w, weq_w, vec![("A", "A"), ("B", "B"), ("Qnew", "Qn")], vec![("A2", "A"), ("B2", "B"), ("Pold", "Po")], false, false));
+    if orbit {
+        scenarios.push((&wenv, &new_w, &old_w, want_w, weq_w, vec![("A", "A"), ("B", "B"), ("Qnew", "Aa")], vec![("A2", "A"), ("B2", "B"), ("Pold", "Aa")], true, false));
+        scenarios.push((&wenv, &new_w, &old_w, want_w, weq_w, vec![("A", "M"), ("B", "N"), ("Qnew", "Z")], vec![("A2", "M"), ("B2", "N"), ("Pold", "C")], false, true));
+    }
+    for (env, new_actor, old_actor, want, weq, nn, on, r1, r2) in scenarios {
+        let new_src = did_of(env, &nn, r1, new_actor);
+        let old_src = did_of(env, &on, r2, old_actor);
         rep.evaluations += 1;
         rep.transitions += 3;
         let case = json!({"new": new_src, "old": old_src, "text_level": true});
@@ -688,7 +797,7 @@ pub fn run(tier: Tier, replay: Option<&str>) -> i32 {
     finish(
         &ctx,
         rep,
-        "queries = (environment, s, t); S1 all pairs of depth<=1 types and depth-2 types vs their 1- (thorough 2-) step neighbours; S2 all environments of two mutually recursive definitions over a 17-element right-hand-side alphabet vs every single-definition mutant (renamed), 10 top-level query shapes incl. opt-probe-then-reuse; S3 record pairs with one leaf flipped; each query with a fresh memo through subtype (Silence/Warning/Error), subtype_check_all, equal; transitivity on all triples of a reduced scope; text level (service_compatible / report / service_equal) with 6 order/renaming variants; E2 = BFS over sequences of successful queries sharing one memo (states merged on memo content), answer and memo-subset-of-relation invariant checked on every transition. states = reachable type pairs visited by the gfp oracle + memo states; non-trivial = related pairs.",
+        "queries = (environment, s, t); S1 all pairs of depth<=1 types and depth-2 types vs their 1- (thorough 2-) step neighbours; S2 all environments of two mutually recursive definitions over a 17-element right-hand-side alphabet vs every single-definition mutant (renamed), 10 top-level query shapes incl. opt-probe-then-reuse; S3 record pairs with one leaf flipped; S4 services over five method names (5 interfaces x every sub-interface and one-method-changed variants); every query also on types whose field and method vectors are reversed / rotated (left, right, both sides and definitions; subtype and subtype_check_all); each query with a fresh memo through subtype (Silence/Warning/Error), subtype_check_all, equal; transitivity on all triples of a reduced scope; text level (service_compatible / report / service_equal) with 6 order/renaming variants and 1-3 variants in which the method types go through a definition present on one side only that refers to the colliding names; E2 = BFS over sequences of successful queries sharing one memo (states merged on memo content), answer and memo-subset-of-relation invariant checked on every transition. states = reachable type pairs visited by the gfp oracle + memo states; non-trivial = related pairs.",
         &["R3 (greatest fixed point over reachable pairs) is a correct reading of the spec's rules", "OptReport::Error is only required to be no more permissive than the spec"],
         json!({}),
     )
